@@ -190,8 +190,8 @@ theorem finishCreate_store_wlog (g : G) (c : Client) (key val : Bytes) (rev : Na
   · split <;> simp
   · simp
 
-theorem createSawIndex_store_wlog (g : G) (c : Client) (key val : Bytes) (rev : Nat) (old : Bytes) :
-    (createSawIndex g c key val rev old).store = g.store ∧ (createSawIndex g c key val rev old).wlog = g.wlog := by
+theorem createSawIndex_store_wlog (g : G) (c : Client) (key val : Bytes) (rev : Nat) (old : Bytes) (att : Nat) :
+    (createSawIndex g c key val rev old att).store = g.store ∧ (createSawIndex g c key val rev old att).wlog = g.wlog := by
   unfold createSawIndex
   split
   · exact finishCreate_store_wlog ..
@@ -228,14 +228,16 @@ theorem stepClient_cases {P : G → Prop} (g : G) (c : Client) (f : Fault)
     (hCreateRetry : ∀ rev key val r st, c.pc = .createRetry rev →
       doCommit g.cfg g.store (createOps key val rev) f = (r, st) →
       P (finishCreate (afterCommit g r st f key rev (some val) .absent) c key val rev r))
-    (hCreateOver : ∀ rev old key val r st, c.pc = .createOver rev old →
+    (hCreateOver : ∀ rev old att key val r st, c.pc = .createOver rev old att →
       doCommit g.cfg g.store [BOp.cas (idxKey key) (be8 rev) old, BOp.put (encode key rev) val] f = (r, st) →
       P (match r with
-         | .conflict _ _ => (afterCommit g r st f key rev (some val) .absent).setClient { c with pc := .createRecheck rev }
+         | .conflict _ _ => (afterCommit g r st f key rev (some val) .absent).setClient { c with pc := .createRecheck rev att }
          | r' => finishCreate (afterCommit g r st f key rev (some val) .absent) c key val rev r'))
-    (hCreateRecheck : ∀ rev key val, c.pc = .createRecheck rev →
+    (hCreateRecheck : ∀ rev att key val, c.pc = .createRecheck rev att →
       P (match g.store.get (idxKey key) with
-         | some _ => finishCreate g c key val rev (.conflict none none)
+         | some cur =>
+           if g.cfg.creatorNoReeval || att ≥ 3 then finishCreate g c key val rev (.conflict none none)
+           else createSawIndex g c key val rev cur (att + 1)
          | none => g.setClient { c with pc := .createRetry rev }))
     (hUpdateCommit : ∀ rev key val exp r st, c.pc = .updateCommit rev → c.kind = .update key val exp →
       doCommit g.cfg g.store [BOp.cas (idxKey key) (be8 rev) (be8 exp), BOp.put (encode key rev) val] f = (r, st) →
@@ -299,9 +301,9 @@ theorem stepClient_cases {P : G → Prop} (g : G) (c : Client) (f : Fault)
     · simp only []
       generalize hdc : doCommit g.cfg g.store _ f = p
       obtain ⟨r, st⟩ := p
-      have hL := hCreateOver _ _ _ _ r st ‹_› hdc
+      have hL := hCreateOver _ _ _ _ _ r st ‹_› hdc
       cases r <;> simpa only [afterCommit] using hL
-  · cases kind <;> exact hCreateRecheck _ _ _ ‹_›
+  · cases kind <;> exact hCreateRecheck _ _ _ _ ‹_›
   · simp only []
     generalize hdc : doCommit g.cfg g.store _ f = p
     obtain ⟨r, st⟩ := p
@@ -361,14 +363,16 @@ theorem stepClient_noW (g : G) (c : Client) (f : Fault) : NoW g (stepClient g c 
     · exact .inl ⟨rfl, rfl⟩
   · intro rev key val r st _ hdc
     exact (NoW.afterCommit hdc key rev (some val) .absent).of_eq (finishCreate_store_wlog ..).1 (finishCreate_store_wlog ..).2
-  · intro rev old key val r st _ hdc
+  · intro rev old att key val r st _ hdc
     have h := NoW.afterCommit hdc key rev (some val) .absent
     split
     · exact h.of_eq rfl rfl
     · exact h.of_eq (finishCreate_store_wlog ..).1 (finishCreate_store_wlog ..).2
-  · intro rev key val _
+  · intro rev att key val _
     split
-    · exact .inl (finishCreate_store_wlog ..)
+    · split
+      · exact .inl (finishCreate_store_wlog ..)
+      · exact .inl (createSawIndex_store_wlog ..)
     · exact .inl ⟨rfl, rfl⟩
   · intro rev key val exp r st _ _ hdc
     have h := NoW.afterCommit hdc key rev (some val) (.rev exp)
@@ -848,8 +852,8 @@ def infl (c : Client) : Option Nat :=
   | .createCommit r => some r
   | .createReread r => some r
   | .createRetry r => some r
-  | .createOver r _ => some r
-  | .createRecheck r => some r
+  | .createOver r _ _ => some r
+  | .createRecheck r _ => some r
   | .updateCommit r => some r
   | .deleteCommit r _ _ => some r
   | _ => none
@@ -863,8 +867,8 @@ def CInv (g0 : G) (dealt : Nat) (wlog : List WLog) (c : Client) : Prop :=
   | .createCommit r => Fresh g0 dealt wlog r
   | .createReread r => Fresh g0 dealt wlog r
   | .createRetry r => Fresh g0 dealt wlog r
-  | .createOver r old => Fresh g0 dealt wlog r ∧ ∃ p, parseRevision old = some (p, true) ∧ p < r
-  | .createRecheck r => Fresh g0 dealt wlog r
+  | .createOver r old _ => Fresh g0 dealt wlog r ∧ ∃ p, parseRevision old = some (p, true) ∧ p < r
+  | .createRecheck r _ => Fresh g0 dealt wlog r
   | .updateCommit r => Fresh g0 dealt wlog r ∧ ∀ k v e, c.kind = .update k v e → e ≤ r
   | .deleteDeal none => True
   | .deleteDeal (some (_, m)) => m ≤ dealt
@@ -891,8 +895,8 @@ theorem CInv.fresh {g0 : G} {d : Nat} {wl : List WLog} {c : Client} (h : CInv g0
   | createCommit r' => simp only [hpc, Option.some.injEq] at hr; simp only [CInv, hpc] at h; exact hr ▸ h
   | createReread r' => simp only [hpc, Option.some.injEq] at hr; simp only [CInv, hpc] at h; exact hr ▸ h
   | createRetry r' => simp only [hpc, Option.some.injEq] at hr; simp only [CInv, hpc] at h; exact hr ▸ h
-  | createRecheck r' => simp only [hpc, Option.some.injEq] at hr; simp only [CInv, hpc] at h; exact hr ▸ h
-  | createOver r' _ => simp only [hpc, Option.some.injEq] at hr; simp only [CInv, hpc] at h; exact hr ▸ h.1
+  | createRecheck r' _ => simp only [hpc, Option.some.injEq] at hr; simp only [CInv, hpc] at h; exact hr ▸ h
+  | createOver r' _ _ => simp only [hpc, Option.some.injEq] at hr; simp only [CInv, hpc] at h; exact hr ▸ h.1
   | updateCommit r' => simp only [hpc, Option.some.injEq] at hr; simp only [CInv, hpc] at h; exact hr ▸ h.1
   | deleteCommit r' _ _ => simp only [hpc, Option.some.injEq] at hr; simp only [CInv, hpc] at h; exact hr ▸ h.1
 
@@ -907,8 +911,8 @@ theorem CInv.mono {g0 : G} {d d' : Nat} {wl : List WLog} {c : Client} (h : CInv 
   | createCommit r' => simp only [CInv, hpc] at h ⊢; exact h.mono hd
   | createReread r' => simp only [CInv, hpc] at h ⊢; exact h.mono hd
   | createRetry r' => simp only [CInv, hpc] at h ⊢; exact h.mono hd
-  | createRecheck r' => simp only [CInv, hpc] at h ⊢; exact h.mono hd
-  | createOver r' _ => simp only [CInv, hpc] at h ⊢; exact ⟨h.1.mono hd, h.2⟩
+  | createRecheck r' _ => simp only [CInv, hpc] at h ⊢; exact h.mono hd
+  | createOver r' _ _ => simp only [CInv, hpc] at h ⊢; exact ⟨h.1.mono hd, h.2⟩
   | updateCommit r' => simp only [CInv, hpc] at h ⊢; exact ⟨h.1.mono hd, h.2⟩
   | deleteCommit r' _ _ => simp only [CInv, hpc] at h ⊢; exact ⟨h.1.mono hd, h.2⟩
 
@@ -930,10 +934,10 @@ theorem CInv.log {g0 : G} {d : Nat} {wl : List WLog} {c : Client} (h : CInv g0 d
   | createRetry r' =>
     simp only [hpc, ne_eq, Option.some.injEq] at hw; simp only [CInv, hpc] at h ⊢
     exact h.log (fun e => hw e.symm)
-  | createRecheck r' =>
+  | createRecheck r' _ =>
     simp only [hpc, ne_eq, Option.some.injEq] at hw; simp only [CInv, hpc] at h ⊢
     exact h.log (fun e => hw e.symm)
-  | createOver r' _ =>
+  | createOver r' _ _ =>
     simp only [hpc, ne_eq, Option.some.injEq] at hw; simp only [CInv, hpc] at h ⊢
     exact ⟨h.1.log (fun e => hw e.symm), h.2⟩
   | updateCommit r' =>
@@ -1084,15 +1088,16 @@ theorem SInvE.finishCreate {g0 g : G} {c : Client} (h : SInvE g0 g (others g.cli
   · exact h'.finish _ (by simp)
 
 theorem SInvE.createSawIndex {g0 g : G} {c : Client} (h : SInvE g0 g (others g.clients c.id)) (key val : Bytes)
-    {rev : Nat} (old : Bytes) (hf : Fresh g0 g.dealt g.wlog rev) (ho : ∀ x ∈ others g.clients c.id, infl x ≠ some rev) :
-    SInv g0 (createSawIndex g c key val rev old) := by
+    {rev : Nat} (old : Bytes) (hf : Fresh g0 g.dealt g.wlog rev) (ho : ∀ x ∈ others g.clients c.id, infl x ≠ some rev)
+    (att : Nat) :
+    SInv g0 (createSawIndex g c key val rev old att) := by
   unfold KB.createSawIndex
   split
   · exact h.finishCreate ..
   · split
     · rename_i prevRev tomb hp hc
       simp only [Bool.and_eq_true, decide_eq_true_eq] at hc
-      refine SInvE.set (c' := { c with pc := .createOver rev old }) h ?_ ?_
+      refine SInvE.set (c' := { c with pc := .createOver rev old att }) h ?_ ?_
       · simp only [CInv]
         exact ⟨hf, prevRev, by rw [hp, hc.1], hc.2⟩
       · intro r hr
@@ -1256,7 +1261,7 @@ theorem SInv.stepClient {g0 g : G} (h0 : G0OK g0) (hv : KB.SInv g.view) (h : SIn
     split
     · rw [afterCommit_conflict] at hA ⊢
       split
-      · exact hA.createSawIndex key val _ hf (h.cl.others_ne hc hinfl)
+      · exact hA.createSawIndex key val _ hf (h.cl.others_ne hc hinfl) _
       · refine SInvE.set (c' := { c with pc := .createReread rev }) hA ?_ ?_
         · simp only [CInv]; exact hf
         · intro r' hr; simp only [infl, Option.some.injEq] at hr; subst hr; exact h.cl.others_ne hc hinfl
@@ -1266,7 +1271,7 @@ theorem SInv.stepClient {g0 g : G} (h0 : G0OK g0) (hv : KB.SInv g.view) (h : SIn
     have hinfl : infl c = some rev := by simp [infl, hpc]
     have hf := hci.fresh hinfl
     split
-    · exact hE.createSawIndex key val _ hf (h.cl.others_ne hc hinfl)
+    · exact hE.createSawIndex key val _ hf (h.cl.others_ne hc hinfl) _
     · refine SInvE.set (c' := { c with pc := .createRetry rev }) hE ?_ ?_
       · simp only [CInv]; exact hf
       · intro r' hr; simp only [infl, Option.some.injEq] at hr; subst hr; exact h.cl.others_ne hc hinfl
@@ -1280,7 +1285,7 @@ theorem SInv.stepClient {g0 g : G} (h0 : G0OK g0) (hv : KB.SInv g.view) (h : SIn
         · exact .inr hn)
     exact hA.finishCreate ..
   · -- createOver
-    intro rev old key val r st hpc hdc
+    intro rev old att key val r st hpc hdc
     have hinfl : infl c = some rev := by simp [infl, hpc]
     have hf := hci.fresh hinfl
     simp only [CInv, hpc] at hci
@@ -1292,16 +1297,18 @@ theorem SInv.stepClient {g0 g : G} (h0 : G0OK g0) (hv : KB.SInv g.view) (h : SIn
         · exact .inr hn)
     split
     · rw [afterCommit_conflict] at hA ⊢
-      refine SInvE.set (c' := { c with pc := .createRecheck rev }) hA ?_ ?_
+      refine SInvE.set (c' := { c with pc := .createRecheck rev att }) hA ?_ ?_
       · simp only [CInv]; exact hf
       · intro r' hr; simp only [infl, Option.some.injEq] at hr; subst hr; exact h.cl.others_ne hc hinfl
     · exact hA.finishCreate ..
   · -- createRecheck
-    intro rev key val hpc
+    intro rev att key val hpc
     have hinfl : infl c = some rev := by simp [infl, hpc]
     have hf := hci.fresh hinfl
     split
-    · exact hE.finishCreate ..
+    · split
+      · exact hE.finishCreate ..
+      · exact hE.createSawIndex key val _ hf (h.cl.others_ne hc hinfl) _
     · refine SInvE.set (c' := { c with pc := .createRetry rev }) hE ?_ ?_
       · simp only [CInv]; exact hf
       · intro r' hr; simp only [infl, Option.some.injEq] at hr; subst hr; exact h.cl.others_ne hc hinfl
@@ -1633,7 +1640,7 @@ def bump : List Action := [.begin 0 (.delete [] 0), .step 0 .none, .step 0 .none
 theorem run_bump (g : G) (hc : g.clients = []) (hs : g.store = []) :
     (run g bump).clients = [] ∧ (run g bump).store = [] ∧ (run g bump).wlog = g.wlog ∧
     (run g bump).dealt = g.dealt + 1 := by
-  obtain ⟨cfg, store, dealt, committed, slots, retryQ, retryPc, clients, emitted, hist, wlog, done⟩ := g
+  obtain ⟨cfg, store, dealt, committed, slots, retryQ, retryPc, clients, emitted, hist, wlog, done, begins, spans⟩ := g
   simp only at hc hs
   subst hc hs
   simp [run, bump, act, G.client, stepClient, bget_nil, G.setClient, G.finish, G.notify, mkW]
@@ -1660,7 +1667,7 @@ theorem run_mkCreate (g : G) (hc : g.clients = []) (hs : g.store = []) (hw : g.w
     (hm : (g.dealt + 1) % 2 ^ 64 ≠ 0) :
     (run g mkCreate).wlog = [⟨[47], g.dealt + 1, some [1], .absent⟩] ∧
     (run g mkCreate).store.get (idxKey [47]) = some (be8 (g.dealt + 1)) := by
-  obtain ⟨cfg, store, dealt, committed, slots, retryQ, retryPc, clients, emitted, hist, wlog, done⟩ := g
+  obtain ⟨cfg, store, dealt, committed, slots, retryQ, retryPc, clients, emitted, hist, wlog, done, begins, spans⟩ := g
   simp only at hc hs hw hm
   subst hc hs hw
   simp [run, mkCreate, act, G.client, stepClient, G.setClient, createOps, doCommit, commit, applyOps, applyOp,
